@@ -1041,6 +1041,51 @@ func runC15(c *runCtx) error {
 		q := "delete where " + g.join(g.child(t, false, false))
 		h.emit(0, q, t, c15Styles[g.style], "")
 	}
+	// pairs of texts that differ ONLY in the letter case inside quoted literals / back-quoted
+	// names, lexed and parsed one right after the other (what is parsed depends on the text
+	// alone, not on a text seen before that looks the same up to case)
+	{
+		var flip func(n *c15gx) (*c15gx, bool)
+		flip = func(n *c15gx) (*c15gx, bool) {
+			c := *n
+			changed := false
+			if (n.k == "str" || (n.k == "name" && n.q == '`')) && strings.ToUpper(n.s) != strings.ToLower(n.s) {
+				c.s = strings.Map(func(r rune) rune {
+					switch {
+					case r >= 'a' && r <= 'z':
+						return r - 32
+					case r >= 'A' && r <= 'Z':
+						return r + 32
+					}
+					return r
+				}, n.s)
+				changed = true
+			}
+			c.kids = make([]*c15gx, len(n.kids))
+			for i, k := range n.kids {
+				kk, ch := flip(k)
+				c.kids[i] = kk
+				changed = changed || ch
+			}
+			return &c, changed
+		}
+		nPairs := 150
+		if c.thorough() {
+			nPairs = 1500
+		}
+		for i, made := 0, 0; made < nPairs && i < nPairs*20; i++ {
+			g.style, g.rcase, g.rspace = i%3, false, false
+			t := g.expr(1 + r.intn(3))
+			t2, changed := flip(t)
+			if !changed {
+				continue
+			}
+			made++
+			pref := pick(r, []string{"delete where ", "DELETE WHERE ", "delete where "})
+			h.emit(0, pref+g.join(g.child(t, false, false)), t, c15Styles[g.style], "case pair, first")
+			h.emit(0, pref+g.join(g.child(t2, false, false)), t2, c15Styles[g.style], "case pair, second: the same text up to the case inside quotes")
+		}
+	}
 	// corrupted texts: twin against implementation on error paths and odd separators
 	for i := 0; i < nBad; i++ {
 		g.style, g.rcase, g.rspace = i%3, false, r.chance(1, 3)
